@@ -37,6 +37,7 @@ type rep struct {
 	emitCur int // buffer ops already reported as emitted
 	pubCur  int // buffer ops already published to the log
 	dlvCur  int // next log index to look at
+	handles map[string]orda.Document
 	aid     int // author identity: index of the replica whose client id this one carries
 }
 
